@@ -1145,8 +1145,8 @@ impl Property for C12 {
     }
     fn budget(tier: Tier) -> u64 {
         match tier {
-            Tier::Quick => 300_000,
-            Tier::Thorough => 6_000_000,
+            Tier::Quick => 1_000_000,
+            Tier::Thorough => 12_000_000,
         }
     }
 
